@@ -14,6 +14,7 @@ from ...lang.common import Token
 from ...lang.tools.recursivedescent import RecursiveDescentParser
 from ..opcodes import OPERANDS, OPCODES, ArgType
 from ..util import datastring2bytes, make_int, make_float, is_int, PAGE_SIZE
+from ..util import string2name
 from .util import default_alignment, log2
 from .. import components
 
@@ -360,8 +361,8 @@ class WatParser(RecursiveDescentParser):
 
     def load_import(self):
         """Parse top level import."""
-        modname = self.take()
-        name = self.take()
+        modname = self.take_name()
+        name = self.take_name()
         self.expect("(")
         kind = self.take()
         id = self._parse_optional_id(default=self.gen_id(kind))
@@ -386,7 +387,7 @@ class WatParser(RecursiveDescentParser):
 
     def parse_export(self):
         """Parse a toplevel export"""
-        name = self.take()
+        name = self.take_name()
         self.expect("(")
         kind = self.take()
         ref = self._parse_ref(kind)
@@ -903,15 +904,15 @@ class WatParser(RecursiveDescentParser):
     # Inline stuff:
     def _parse_inline_import(self):
         self.expect("(", "import")
-        modname = self.take()
-        name = self.take()
+        modname = self.take_name()
+        name = self.take_name()
         self.expect(")")
         return modname, name
 
     def _parse_inline_export(self, kind, obj_name):
         ref = self._make_ref(kind, obj_name)
         while self.munch("(", "export"):
-            name = self.take()
+            name = self.take_name()
             self.expect(")")
             self.add_definition(components.Export(name, kind, ref))
 
@@ -958,6 +959,17 @@ class WatParser(RecursiveDescentParser):
     def take(self):
         """Consume the next token, and return its value"""
         tok = self.next_token()
+        return tok.val
+
+    def take_name(self):
+        """Consume an import / export name.
+
+        In the text format a name is a string with escapes, in the tuple
+        format it is given as is.
+        """
+        tok = self.next_token()
+        if tok.typ == "string":
+            return string2name(tok.val)
         return tok.val
 
     def _at_id(self):
